@@ -771,6 +771,12 @@ class ArrayTheory:
             if isinstance(recv, DictSym) and name == 'values' and not args:
                 d_ = recv
                 return Arr(d_.n, lambda e, s, i: d_.get(e, E.Obj(d_.keyf(i)), s), taint=d_.taint, name='values_' + d_.name)
+            if isinstance(recv, Arr) and name == 'append' and len(args) == 1 and isinstance(node.func, ast.Attribute) and not recv.np:
+                v_, n0_ = args[0], recv.n
+                new_ = Arr(n0_ + 1, lambda e, s, i: e.ite(s, i < n0_, recv.at(e, s, i), v_), taint=E.t_or(recv.taint, v_.taint, st.pc_taint), name='appended')
+                new_.len_taint = E.t_or(recv.taint if recv.len_taint is None else recv.len_taint, st.pc_taint)
+                self.rebind(st, node.func.value, new_)
+                return E.Const(None)
             if isinstance(recv, Arr):
                 if name in ('max', 'min') and not args:
                     return self.arr_max(st, recv, name)
